@@ -22,7 +22,7 @@ def run_ref(prog, enable_loop=True, buffer_filters=(), extra_ctx=None):
         raise
     except Exception as e:
         if isinstance(e, RuntimeError) and "reference step limit" in str(e):
-            raise HarnessError("reference step limit (generator produced a non-terminating program)")
+            return ("reject", "step-limit")
         return ("exc", type(e).__name__, str(e)[:200])
 
 
@@ -41,10 +41,29 @@ def run_mako(src, enable_loop=True, page_loop=False, buffer_filters=(), extra_ct
         compile(t.code, "<generated>", "exec")
     except SyntaxError as e:
         return ("code-does-not-compile", str(e))
+    import signal
+
+    def _alarm(signum, frame):
+        raise _Timeout()
+
+    old = signal.signal(signal.SIGVTALRM, _alarm)
+    signal.setitimer(signal.ITIMER_VIRTUAL, MAKO_CPU_LIMIT_S, 0.5)  # repeating: a bare `% except:` may swallow the first one
     try:
         return ("ok", t.render_unicode(**ctx))
+    except _Timeout:
+        return ("timeout", "render exceeded %.0f s CPU (the reference finished within its step limit)" % MAKO_CPU_LIMIT_S)
     except Exception as e:
         return ("exc", type(e).__name__, str(e)[:200])
+    finally:
+        signal.setitimer(signal.ITIMER_VIRTUAL, 0)
+        signal.signal(signal.SIGVTALRM, old)
+
+
+class _Timeout(BaseException):
+    pass
+
+
+MAKO_CPU_LIMIT_S = 20.0
 
 
 def exc_equiv(a, b):
@@ -58,6 +77,8 @@ def exc_equiv(a, b):
 def compare(case, ref, got, src, what=""):
     if got[0] == "compile-exc" or got[0] == "code-does-not-compile":
         raise Failure(case, "template does not compile: %s\n--- source ---\n%s" % (got[1:], src), "compile:" + str(got[1]))
+    if got[0] == "timeout":
+        raise Failure(case, "mako: %s\n--- source ---\n%s" % (got[1], src), "mako-does-not-terminate")
     if ref[0] == "ok":
         if got[0] != "ok":
             raise Failure(case, "reference renders %r but mako raised %s\n--- source ---\n%s" % (ref[1], got[1:], src),
@@ -67,10 +88,10 @@ def compare(case, ref, got, src, what=""):
     else:
         if got[0] == "ok":
             raise Failure(case, "reference raises %s but mako rendered %r\n--- source ---\n%s" % (ref[1:], got[1], src),
-                          "no-exception")
+                          "no-exception:" + ref[1])
         if not exc_equiv(got[1], ref[1]):
             raise Failure(case, "reference raises %s, mako raises %s\n--- source ---\n%s" % (ref[1:], got[1:], src),
-                          "exception-differs")
+                          "exception-differs:%s/%s" % (ref[1], got[1]))
 
 
 def features_of(prog):
@@ -130,3 +151,113 @@ def _has_empty(nodes):
             if not b or all(x["t"] == "comment" for x in b) or _has_empty(b):
                 return True
     return False
+
+
+# ---------------------------------------------------------------- IR shrinker (greedy node deletion / hoisting)
+def _bodies(node):
+    """(container, key) pairs of child body lists of a node"""
+    out = []
+    t = node.get("t")
+    if t == "if":
+        for arm in node["arms"]:
+            out.append((arm, 1))
+        if node.get("else") is not None:
+            out.append((node, "else"))
+    elif t == "try":
+        out.append((node, "body"))
+        for h in node["handlers"]:
+            out.append((h, 1))
+    elif t == "ccall":
+        out.append((node, "body"))
+        out.append((node, "defs"))
+    else:
+        for k in ("body", "else"):
+            if isinstance(node.get(k), list):
+                out.append((node, k))
+    return out
+
+
+def _all_lists(prog):
+    """every body list in the program, outermost first"""
+    res = []
+
+    def walk(lst):
+        res.append(lst)
+        for n in lst:
+            for cont, key in _bodies(n):
+                walk(cont[key])
+
+    walk(prog["body"])
+    return res
+
+
+def shrink_prog(prog, still_fails, budget_s=20.0, max_evals=400):
+    import copy
+    import time
+
+    t0 = time.time()
+    evals = 0
+    best = copy.deepcopy(prog)
+    improved = True
+    while improved:
+        improved = False
+        lists = _all_lists(best)
+        for li in range(len(lists)):
+            i = 0
+            while True:
+                lists = _all_lists(best)
+                if li >= len(lists) or i >= len(lists[li]):
+                    break
+                if time.time() - t0 > budget_s or evals > max_evals:
+                    return best
+                cands = []
+                # 1. delete node i
+                c1 = copy.deepcopy(best)
+                l1 = _all_lists(c1)[li]
+                node = l1[i]
+                del l1[i]
+                cands.append(c1)
+                # 2. replace a control node by its first body
+                subs = _bodies(node)
+                if subs and node.get("t") in ("if", "try"):
+                    c2 = copy.deepcopy(best)
+                    l2 = _all_lists(c2)[li]
+                    cont, key = _bodies(l2[i])[0]
+                    l2[i:i + 1] = cont[key]
+                    cands.append(c2)
+                ok = False
+                for c in cands:
+                    evals += 1
+                    try:
+                        if still_fails(c):
+                            best = c
+                            improved = True
+                            ok = True
+                            break
+                    except Exception:
+                        pass
+                if not ok:
+                    i += 1
+    return best
+
+
+def minimise(f, check_case, budget_s=20.0):
+    """shrink the program of a failing case, keeping the failure key"""
+    case = f.case
+    key = f.key
+
+    def still(prog):
+        try:
+            check_case(dict(case, prog=prog))
+        except Failure as g:
+            return g.key == key
+        return False
+
+    try:
+        small = shrink_prog(case["prog"], still, budget_s=budget_s)
+        check_case(dict(case, prog=small))
+    except Failure as g:
+        return g
+    except HarnessError:
+        return f
+    return f
